@@ -250,3 +250,61 @@ let ghost before = resolved_object.ents();''')},
 
 UNITS['c06_context_args'] = (['C06'], context_unit)
 SEARCH['c06_context_args'] = ['c06_args']
+
+
+# ----------------------------------------------------------------------------------------------------------------------
+# C22: SelectionField::arguments reports every provided argument with its RESOLVED value (same coercion as execution)
+ARGS_SPEC = r'''
+pub struct SelectionField<'a> { pub field: &'a Field, pub context: &'a ContextBase<'a> }
+// the first n arguments resolve to `out`: arguments bound to an omitted variable are left out, the others keep name and order
+pub open spec fn args_resolve(args: Args, n: nat, defs: Defs, vars: Vars, out: Seq<(Name, Value)>) -> bool decreases n {
+    if n == 0 || n > args.len() { out.len() == 0 } else {
+        if omitted(args[n - 1].1.node, defs, vars) { args_resolve(args, (n - 1) as nat, defs, vars, out) }
+        else { out.len() > 0 && out.last().0@ == args[n - 1].0.node@ && resolves_to(args[n - 1].1.node, defs, vars, out.last().1) && args_resolve(args, (n - 1) as nat, defs, vars, out.drop_last()) }
+    }
+}
+'''
+
+
+def selection_arguments_unit(kf):
+    u = Unit('c22_selection_arguments', ['C22'], 'SelectionField::arguments lists every provided argument with the value execution resolves for it (variables, defaults, omission)')
+    u.kf = kf
+    value_types_ctx(u)
+    ast_types(u, alias=CTX_ALIAS)
+    u.prelude('string_eq')
+    u.prelude('iter_shims')
+    u.trusted(CTX_SHIMS, 'context / error / InputType shims')
+    u.shim_conformance(C, ['struct ContextBase'], [('query_env', "&'a QueryEnv")])
+    u.shim_conformance(C, ['struct QueryEnvInner'], [('operation', 'Positioned<OperationDefinition>'), ('variables', 'Variables')])
+    u.shim_conformance(C, ['struct SelectionField'], [('field', "&'a Field"), ('context', "&'a Context<'a>")])
+    u.spec(CTX_SPEC, 'CoerceArgumentValues spec')
+    u.spec(ARGS_SPEC, 'argument list spec')
+    u.trusted('''
+// ContextBase::resolve_input_value: proved in unit c06_context_args; here only its contract is used (modular)
+impl<'a> ContextBase<'a> {
+    #[verifier::external_body]
+    fn resolve_input_value(&self, value: Positioned<InputValue>) -> (r: ServerResult<Option<Value>>)
+        ensures
+            resolve_fails(value.node, env_defs(self), env_vars(self)) <==> r is Err,
+            r is Ok ==> (omitted(value.node, env_defs(self), env_vars(self)) <==> r->Ok_0 is None),
+            r is Ok && r->Ok_0 is Some ==> resolves_to(value.node, env_defs(self), env_vars(self), r->Ok_0->Some_0),
+    { unimplemented!() }
+}''', 'resolve_input_value contract (proved in c06_context_args)')
+    D, V_ = 'env_defs(self.context)', 'env_vars(self.context)'
+    u.extract_fn(C, ["impl<'a> SelectionField<'a>", 'fn arguments'], wrap_impl="<'a> SelectionField<'a>",
+                 rewrites=[Sub('for (name, value) in &self.field.arguments {', 'for (name, value) in it: &self.field.arguments {', rule='R-iter')],
+                 ensures=[f'r is Err <==> exists|i: int| 0 <= i < self.field.arguments@.len() && resolve_fails((#[trigger] self.field.arguments@[i]).1.node, {D}, {V_})',
+                          f'r is Ok ==> args_resolve(self.field.arguments@, self.field.arguments@.len(), {D}, {V_}, r->Ok_0@)   // exactly the provided arguments, in order, each with its resolved value'],
+                 loops={0: dict(prop=[f'args_resolve(self.field.arguments@, it.index@ as nat, {D}, {V_}, arguments@)'],
+                                aux=[f'forall|i: int| 0 <= i < it.index@ ==> !resolve_fails((#[trigger] self.field.arguments@[i]).1.node, {D}, {V_})'],
+                                head='''proof { assert((*name, *value) == self.field.arguments@[it.index@ as int]); }
+let ghost before = arguments@;''')},
+                 inserts=[('after', 'arguments.push((name.node.clone(), value));', 'proof { assert(arguments@.drop_last() =~= before); }')],
+                 attrs=['#[verifier::loop_isolation(false)]'])
+    u.assume('SelectionField is represented by the two fields arguments() reads (conformance-checked); resolve_input_value is used through its contract (proved in c06_context_args)')
+    u.search_case('context.rs', 'c22_lookahead')
+    return u
+
+
+UNITS['c22_selection_arguments'] = (['C22'], selection_arguments_unit)
+SEARCH['c22_selection_arguments'] = ['c22_lookahead']
